@@ -24,9 +24,11 @@ LEVEL_TEXT = ("Lean 4: the statement's predicate Truthful (npartitions = len(div
               "for all inputs: from_pandas_truthful (partitions cut at the locations planned by sorted_division_locations "
               "are truthful for the planned divisions - every sorted frame, npartitions and chunksize mode; built on the C45 "
               "theorems), partitions_truthful (selection of partitions in increasing order), tofewer_truthful (concatenation of "
-              "contiguous partitions: RepartitionToFewer), filter_preserves, "
+              "contiguous partitions: RepartitionToFewer), loc_slice_truthful (closed .loc[x:y], any number of touched partitions: "
+              "trimmed first/last, untouched middle, divisions (max(x,d_start),...,min(y,d_stop+1)); uses the proved spec of "
+              "_partition_of_index_value), filter_preserves, "
               "blockwise_preserves, partitionwise_subset_preserves, truthfulB_decides (the executable oracle of the tie is "
-              "exactly the predicate). LocSlice, RepartitionDivisions, set_index and aligned merge/concat "
+              "exactly the predicate). open-ended LocSlice, RepartitionDivisions, set_index and aligned merge/concat "
               "paths are modelled/tied but not yet proved. VALIDATED on every run: random pipelines over from_pandas / from_map "
               "sources, loc (slice, list, element), filter, assign, projection, repartition (npartitions, divisions), "
               "partitions[...] selection, set_index (computed and given divisions), interleaved concat, index merges, "
